@@ -33,6 +33,14 @@ func NewIOReader(reader io.Reader) ro.Observable[[]byte] {
 
 		for {
 			n, err := reader.Read(buf)
+			if n > 0 {
+				// io.Reader: process the n > 0 bytes returned before considering the error.
+				// The chunk is copied: the buffer is overwritten by the next Read.
+				output := make([]byte, n)
+				copy(output, buf[:n])
+				destination.NextWithContext(ctx, output)
+			}
+
 			if err != nil {
 				if err == io.EOF {
 					destination.CompleteWithContext(ctx)
@@ -41,7 +49,6 @@ func NewIOReader(reader io.Reader) ro.Observable[[]byte] {
 				}
 				break
 			}
-			destination.NextWithContext(ctx, buf[:n])
 		}
 
 		return func() {
